@@ -237,6 +237,28 @@ func c09snapshots(res *vlib.Result, rec *krecord, ex *kexec, cx map[string]any, 
 		}
 		return
 	}
+	// the keys are the binding's own list: includeSnapshotsFrom, or the kubernetes bindings of its group
+	// (b == nil: the harness's "snap" schedule binding, which includes every kubernetes binding of the hook)
+	if b != nil {
+		want := map[string]bool{}
+		for _, i := range b.Include {
+			want[i] = true
+		}
+		if b.Group != "" {
+			for _, kh := range rec.KC.Hooks {
+				if kh.Rel == ex.Hook {
+					for _, kb := range kh.Binds {
+						if kb.Group == b.Group {
+							want[kb.Name] = true
+						}
+					}
+				}
+			}
+		}
+		if strings.Join(vlib.SortedKeys(snaps), ",") != strings.Join(vlib.SortedKeys(want), ",") {
+			fail("snapshots-keys", "snapshots has the keys %v, the binding includes %v", vlib.SortedKeys(snaps), vlib.SortedKeys(want))
+		}
+	}
 	for name, list := range snaps {
 		sb := rec.KC.bind(ex.Hook, name)
 		if sb == nil {
